@@ -494,7 +494,122 @@ func enumExhaustive(thorough bool, yield func(Case) bool) {
 	}
 }
 
+// ---------------------------------------------------------------------------
+// Interleaved sources: the records of the main input must not depend on reads
+// from another source happening in between (and vice versa): a program that
+// alternates between main records and "getline s < file" sees, per source,
+// exactly the records it sees when that source is read alone.
+
+type SideCase struct {
+	Input h.Str `json:"input"`
+	Side  h.Str `json:"side"`
+	RS    h.Str `json:"rs"`
+	Chunk []int `json:"chunk,omitempty"` // delivery of the main input (nil: one read)
+	Burst int   `json:"burst"`           // side records read per main record
+}
+
+func genSide(t *rapid.T) SideCase {
+	rs := rapid.SampledFrom([]string{"\n", "\n", ";", "", "x+", "é", "\r\n"}).Draw(t, "rs")
+	mk := func(label string) string {
+		var sb strings.Builder
+		n := rapid.IntRange(1, 12).Draw(t, label+"n")
+		for i := 0; i < n; i++ {
+			sb.WriteString(rapid.StringMatching("[a-c ]{0,9}").Draw(t, label+"r"))
+			sep := rs
+			switch rs {
+			case "":
+				sep = "\n\n"
+			case "x+":
+				sep = rapid.SampledFrom([]string{"x", "xx", "xxx"}).Draw(t, label+"s")
+			}
+			sb.WriteString(sep)
+		}
+		return sb.String()
+	}
+	c := SideCase{Input: h.Str(mk("m")), Side: h.Str(mk("s")), RS: h.Str(rs), Burst: rapid.IntRange(1, 3).Draw(t, "burst")}
+	if rapid.Bool().Draw(t, "chunked") && len(c.Input) > 1 {
+		c.Chunk = []int{rapid.IntRange(1, len(c.Input)-1).Draw(t, "split"), 1 << 30}
+	}
+	return c
+}
+
+func splitTagged(out string) (m, sd string, ok bool) {
+	var mb, sb strings.Builder
+	for len(out) > 0 {
+		if len(out) < 4 || (out[0] != 'M' && out[0] != 'S') || out[1] != ' ' {
+			return "", "", false
+		}
+		i := strings.IndexByte(out, ':')
+		if i < 0 {
+			return "", "", false
+		}
+		n, err := strconv.Atoi(out[2:i])
+		if err != nil || i+1+n+1 > len(out) || out[i+1+n] != '\n' {
+			return "", "", false
+		}
+		item := out[:i+1+n+1]
+		if out[0] == 'M' {
+			mb.WriteString(item)
+		} else {
+			sb.WriteString(item)
+		}
+		out = out[len(item):]
+	}
+	return mb.String(), sb.String(), true
+}
+
+func runSide(x *h.Ctx, c SideCase) string {
+	dir := h.TempDir("c07s")
+	defer os.RemoveAll(dir)
+	sidePath := filepath.Join(dir, "side")
+	os.WriteFile(sidePath, []byte(c.Side), 0o644)
+	rsq := awk.QuoteStr(string(c.RS))
+	runProg := func(src string, stdin []byte, chunks []int, args []string) (string, error) {
+		prog, err := parser.ParseProgram([]byte(src), nil)
+		if err != nil {
+			return "", fmt.Errorf("harness program: %v\n%s", err, src)
+		}
+		var out bytes.Buffer
+		cfg := &interp.Config{Output: &out, Error: &out, Argv0: "goawk", Environ: []string{}, NoExec: true, NoFileWrites: true, Args: args, Vars: []string{"F", sidePath}}
+		if chunks == nil {
+			cfg.Stdin = bytes.NewReader(stdin)
+		} else {
+			cfg.Stdin = sandbox.NewChunkReader(stdin, chunks)
+		}
+		_, err = interp.ExecProgram(prog, cfg)
+		return out.String(), err
+	}
+	mainAlone, err := runProg("BEGIN { RS = "+rsq+" } { printf \"M %d:%s\\n\", length($0), $0 }", []byte(c.Input), nil, nil)
+	if err != nil {
+		return "main input alone: " + err.Error()
+	}
+	sideAlone, err := runProg("BEGIN { RS = "+rsq+" } { printf \"S %d:%s\\n\", length($0), $0 }", nil, nil, []string{sidePath})
+	if err != nil {
+		return "side file alone: " + err.Error()
+	}
+	src := fmt.Sprintf("BEGIN { RS = %s } { printf \"M %%d:%%s\\n\", length($0), $0; for (i = 0; i < %d; i++) if ((getline s < F) > 0) printf \"S %%d:%%s\\n\", length(s), s } END { while ((getline s < F) > 0) printf \"S %%d:%%s\\n\", length(s), s }", rsq, c.Burst)
+	both, err := runProg(src, []byte(c.Input), c.Chunk, nil)
+	if err != nil {
+		return "interleaved run: " + err.Error()
+	}
+	m, sd, ok := splitTagged(both)
+	if !ok {
+		return fmt.Sprintf("the interleaved transcript is malformed: %q\nprogram: %s", h.Trunc(both, 400), src)
+	}
+	if m != mainAlone {
+		return fmt.Sprintf("the records of the main input depend on reads from another file in between\nRS=%q main input=%q side file=%q delivery=%v\nmain records alone:       %q\nmain records interleaved: %q", string(c.RS), string(c.Input), string(c.Side), trimChunks(c.Chunk), mainAlone, m)
+	}
+	if sd != sideAlone {
+		return fmt.Sprintf("the records of a getline file depend on main-input reads in between\nRS=%q main input=%q side file=%q\nside records alone:       %q\nside records interleaved: %q", string(c.RS), string(c.Input), string(c.Side), sideAlone, sd)
+	}
+	if strings.Count(m, "\n") >= 2 && strings.Count(sd, "\n") >= 2 {
+		x.Nontrivial("")
+	}
+	return ""
+}
+
 func init() {
+	h.Prop("interleaved_side_file", 6000, 100000, genSide, runSide)
 	h.Enum("all_chunkings_short_inputs", enumExhaustive, run)
 	h.Prop("random_inputs_deliveries", 20000, 300000, genCase, run)
 	h.Prop("buffer_edge_64k", 300, 4000, genEdge, run)
